@@ -35,10 +35,10 @@ def plan(tier, seed):
         for k, o in enumerate(dict.fromkeys(orders(n4, tier, seed, 6))):
             specs.append(dict(kind='all', names=n4, order=o, sample=8000,
                               sub=k, hashseed=k))
-    nh = 24 if tier == 'thorough' else 12
+    nh = 96 if tier == 'thorough' else 12
     for k in range(nh):
         specs.append(dict(kind='history', sub=k, n=3 + k % 4,
-                          steps=1500 if tier == 'thorough' else 600,
+                          steps=3000 if tier == 'thorough' else 600,
                           auto=(k % 3 == 1), hashseed=k))
     meta = dict(
         rule=RULE,
